@@ -67,6 +67,21 @@ class SimServer:
 
 
 def _mk_response(request, status, headers, body):
+    """The server may ask for its body to go over the wire compressed (header x-sim-encode: gzip | deflate): the response then
+    carries Content-Encoding and the Content-Length of the compressed bytes, exactly what httpx sees from a real server; httpx
+    decodes it, so response.content is the body the server meant."""
+    enc = None
+    headers = dict(headers or {})
+    for k in list(headers):
+        if k.lower() == "x-sim-encode":
+            enc = headers.pop(k)
+    if enc in ("gzip", "deflate"):
+        import gzip
+        import zlib
+        wire = gzip.compress(body, mtime=0) if enc == "gzip" else zlib.compress(body)
+        headers["content-encoding"] = enc
+        headers["content-length"] = str(len(wire))
+        return httpx.Response(status, headers=headers, content=wire, request=request)
     return httpx.Response(status, headers=headers, content=body, request=request)
 
 
